@@ -382,3 +382,44 @@ func eqEdges(bo *ssa.BinOp) (eq, ne []cfgx.Edge) {
 	}
 	return t, f
 }
+
+// boolDisjTrueEdges: edges on which a boolean that or-combines only the given
+// values (`auto := p == nil || *p == Automatic`) is true: then one of them holds.
+func boolDisjTrueEdges(fn *ssa.Function, vals []ssa.Value) []cfgx.Edge {
+	var out []cfgx.Edge
+	in := map[ssa.Value]bool{}
+	for _, v := range vals {
+		in[v] = true
+	}
+	for changed := true; changed; {
+		changed = false
+		for _, b := range fn.Blocks {
+			for _, ins := range b.Instrs {
+				phi, ok := ins.(*ssa.Phi)
+				if !ok || in[phi] {
+					continue
+				}
+				all, n := true, 0
+				for _, e := range phi.Edges {
+					if k, isC := cfgx.ConstBool(e); isC {
+						if !k {
+							all = false // a false constant: not an or-combination
+						}
+						continue
+					}
+					n++
+					if !in[e] {
+						all = false
+					}
+				}
+				if all && n > 0 {
+					in[phi] = true
+					changed = true
+					t, _ := cfgx.DirectCondEdges(phi)
+					out = append(out, t...)
+				}
+			}
+		}
+	}
+	return out
+}
